@@ -62,7 +62,8 @@ def gv(shape, k, lo, hi, s, kind):
 
 def msh(cfg, fam, pf=None, nx=None, ny=None, side=None, **kw):
     side = side or cfg.get("side", "left")
-    return G.make_mesh(pf or cfg.get("pf", "twdi"), nx or cfg.get("nx", 2), ny or cfg.get("ny", 3), side, fam, asym=(side == "full"), **kw)
+    # gscale: the same lattice at model scale (millimetre chords): derivatives of lengths / areas / directions carry no absolute length
+    return cfg.get("gscale", 1.0) * G.make_mesh(pf or cfg.get("pf", "twdi"), nx or cfg.get("nx", 2), ny or cfg.get("ny", 3), side, fam, asym=(side == "full"), **kw)
 
 
 def perturbed(m, s, kind, amp=0.03):
@@ -115,7 +116,8 @@ def _cfg_geo(rap=True, sides=("left", "full", "right")):
 
 
 def _mesh_in(s, kind):
-    return perturbed(msh(s["cfg"], s["fam"]), s, kind)
+    gs = s["cfg"].get("gscale", 1.0)
+    return gs * perturbed(msh(s["cfg"], s["fam"]) / gs, s, kind)
 
 
 Case(
@@ -203,7 +205,10 @@ def _surf(name, cfg, fam, **kw):
 
 
 def _cfg_vlmgeo(tier):
-    return [dict(sh, pf="twdi", sref=t) for sh in shape_axes(tier) for t in ("wetted", "projected")]
+    out = [dict(sh, pf="twdi", sref=t) for sh in shape_axes(tier) for t in ("wetted", "projected")]
+    # model scale: 1.5 mm chord, chordwise segments of 0.4 - 0.8 mm
+    out += [dict(nx=nx, ny=3, side="left", pf="twdi", sref=t, gscale=1.0e-3) for nx in (3, 4) for t in ("wetted", "projected")]
+    return out
 
 
 Case(
